@@ -336,8 +336,11 @@ def run(rep: Report, prog: Program, tier: str) -> None:
     rep.rule("R14.7", "the class / err / cause tags of a terminal event describe the final failure: terminal events emitted after the failure handling (scheduled, post-sleep deadline / attempt cap) take them from the run state's last_* fields or from the current failure's own arguments, and those fields are overwritten as a set by every failure (= C04 R4.4)")
     ST7 = ("param", "state")
     n7 = 0
+    _sd_allowed = {"klass": [attr(ST7, "last_class")], "exc": [attr(ST7, "last_exc")], "cause": [attr(ST7, "last_cause")]}
+    # (the decision step: `_handle_sleep_decision`, or - where its body lives in the two sleep steps - those)
+    _sd_sites = [("redress.policy.retry_helpers:_handle_sleep_decision", _sd_allowed)] if "redress.policy.retry_helpers:_handle_sleep_decision" in prog.funcs else [("redress.policy.retry_helpers:_sync_sleep_action", _sd_allowed), ("redress.policy.retry_helpers:_async_sleep_action", _sd_allowed)]
     for q7, allowed in (
-        ("redress.policy.retry_helpers:_handle_sleep_decision", {"klass": [attr(ST7, "last_class")], "exc": [attr(ST7, "last_exc")], "cause": [attr(ST7, "last_cause")]}),
+        *_sd_sites,
         ("redress.policy.retry_helpers:_finalize_attempt", {"klass": [attr(ST7, "last_class"), attr(("param", "classification"), "klass")], "exc": [("param", "exception"), attr(ST7, "last_exc")], "cause": [("param", "cause"), attr(ST7, "last_cause")]}),
     ):
         f7 = prog.func(q7)
